@@ -62,6 +62,17 @@ func runC01(l *core.Ledger) {
 	l.Rule("C01-R10", "a node the per-node function leaves out is not asked (C02-T4 re-run): the skip is decided by the validity of the per-node result, which also holds for a typed nil - a node that receives an empty request nobody made answers it, and that answer is shown to the quorum function under the node's id")
 	l.With(map[string]string{"C02-T4": "C01-R10"}, func() { c02T4(l, r) })
 	l.With(map[string]string{"C05-M1": "C01-R8"}, func() { c05M1(l, r, eps) })
+	l.Rule("C01-R11", "a reply travels under the message id of the request it answers (C05-M5 re-run: one request envelope per handler start, the reply's metadata is the request's own or a copy of it): a reply sent under the id of a later request of the same connection is shown to that call's quorum function under this node's id")
+	l.With(map[string]string{"C05-M5": "C01-R11"}, func() { c05M5(l, r) })
+	if sl := findServerLoop(l, r, "C01-R11"); sl != nil {
+		l.With(map[string]string{"C03-F5": "C01-R11"}, func() { c03F5(l, sl) })
+	}
+	l.Rule("C01-R12", "the quorum function that decides a call is the one the configuration was created with (C14-G12 re-run: the generated NewConfiguration hands back a configuration built from the caller's own quorum specification and node option, never one created for an earlier caller)")
+	l.With(map[string]string{"C14-G12": "C01-R12"}, func() { c14G12(l) })
+	l.Rule("C01-R13", "every decoded reply is an object of its own (C13-D8/D10 re-run: what the codec stores into msg.Message is created by this decode, not taken from a table of earlier results): a reply object shared between calls shows a quorum function content that its handler never produced once any holder has written to it")
+	if gum := r.mustFn("C01-R13", "Codec.gorumsUnmarshal"); gum != nil {
+		l.With(map[string]string{"C13-D8": "C01-R13", "C13-D10": "C01-R13", "C13-D11": "C01-R13"}, func() { c13D8(l, r, gum); c13D10(l, r, gum); c13D11(l, r, gum) })
+	}
 	// the reply channel belongs to this call alone (made by it, never shared or recycled)
 	l.With(map[string]string{"C05-M6": "C01-R8"}, func() { c05M6(l, r, eps) })
 	l.With(map[string]string{"C07-E4": "C01-R8"}, func() { c07E4(l, r) })
